@@ -9,7 +9,7 @@ A_CLAUSES = ("C13.", "C02.unjustified", "C01.lacking", "C01.pull_error")
 
 def replay(case):
     if "path" in case and "family" in case.get("cfg", {}):
-        return acheck.replay_case(case, A_CLAUSES, None)
+        return acheck.replay_case(case, A_CLAUSES, acheck.judge_valid)
     return ccheck.replay(case)
 
 
@@ -66,7 +66,7 @@ def cfgs(tier):
 
 def run(tier, seed, agg):
     ccheck.run_cases(cfgs(tier), agg, seed)
-    acheck.run_cases(a_cases(tier), A_CLAUSES, agg, None, seed)
+    acheck.run_cases(a_cases(tier), A_CLAUSES, agg, acheck.judge_valid, seed)
     return dict(
         level="model_checking",
         rule="explicit-state BFS over all interleavings of push(gap) and pull(t) (non-decreasing t on the half-hour lattice incl. repeated times and, behind DelayToPush, requests beyond the newest publication) "
